@@ -21,9 +21,7 @@ COUNTERS = [
     (P + 'index/position_index.py', 'PositionIndex.build', 'pos', 'tokenize(', False),
     (P + 'filter/position_filter.py', 'PositionFilter.find_candidates', 'probe_pos', 'probe_tokens', False),
     (P + 'filter/position_filter.py', 'PositionFilter.filter_pair', 'r_pos', 'rstring', False),
-    (TOKORD, 'gen_token_ordering_for_tables', 'table_index', 'table_list', False),
-    (TOKORD, 'gen_token_ordering_for_tables', 'order_idx', 'sorted(', False),
-    (TOKORD, 'gen_token_ordering_for_lists', 'order_idx', 'sorted(', False),
+    # (the rank counter and the table position of the token-ordering generators are decided by R-ORDER/rank, /count)
 ]
 
 
@@ -159,6 +157,18 @@ def check_appends(ctx):
         loops = [n for n in walk_own(f.node) if isinstance(n, ast.For) and any(
             isinstance(c, ast.Call) and isinstance(c.func, ast.Attribute) and c.func.attr == 'append'
             and isinstance(c.func.value, ast.Name) and c.func.value.id == lst for c in ast.walk(n))]
+        if not loops:
+            # built by a comprehension: one entry per element unless it filters or nests
+            comps = [n for n in walk_own(f.node) if isinstance(n, ast.Assign) and isinstance(n.targets[0], ast.Name)
+                     and n.targets[0].id == lst and isinstance(n.value, ast.ListComp)]
+            if len(comps) == 1:
+                lc = comps[0].value
+                okc = len(lc.generators) == 1 and not lc.generators[0].ifs
+                ctx.check('R-ONCE/append', f, lst, okc,
+                          '`%s` must receive exactly one entry per element, but the comprehension %s'
+                          % (lst, 'filters its elements' if len(lc.generators) == 1 else 'nests %d loops' % len(lc.generators)),
+                          comps[0], sample='list comprehension over `%s`, no filter' % U(lc.generators[0].iter)[:40])
+                continue
         if len(loops) != 1:
             raise AnalysisError('%s: expected one loop appending to %s' % (f.where, lst))
         bad = None
